@@ -38,6 +38,10 @@
 (*     ancestor that has an entry is moved instead). The C14 formulas hold *)
 (*     only for TRUE; FALSE is kept as a negative control and to validate  *)
 (*     traces of the unrepaired tree.                                      *)
+(*  D6 an abort of the build that is not "a listed path was not found"     *)
+(*     (why = "loop": moveRecVisiting's hard-link-loop detector) counts as *)
+(*     an abort in MissingAbortsOrIsReported: on the acyclic universe it   *)
+(*     is never justified.                                                 *)
 (*  D5 compressed sizes are not modelled here: "enough compressed bytes    *)
 (*     since the last stream start" is a nondeterministic decision per     *)
 (*     data chunk (dec), bound from the observation in the trace spec.     *)
@@ -60,7 +64,8 @@ CONSTANTS
     ReportMissing,     \* errNotFound is appended to *missedPrioritized (allow) / returned (no allow)
     DropInputLandmarks,\* importTar ignores landmark entries of the input
     LastDupWins,       \* importTar removes an existing entry of the same cleaned name
-    LandmarkOwnStream  \* needsOpenGzEntries holds both landmark names
+    LandmarkOwnStream, \* needsOpenGzEntries holds both landmark names
+    VisitingIsPath     \* moveRecVisiting: `defer delete(visiting, name)` - the loop detector looks at the current recursion path only
 
 Root  == ""
 PLm   == ".prefetch.landmark"
@@ -80,12 +85,21 @@ Clean ==
     [s \in {"x", "/x", "./x"} |-> "x"] @@
     [s \in {"e/f", "/e/f", "./e/f"} |-> "e/f"] @@
     [s \in {"e", "e/"} |-> "e"] @@
-    [s \in {PLm, "./.prefetch.landmark", "/.prefetch.landmark"} |-> PLm] @@
-    [s \in {NoPLm, "./.no.prefetch.landmark"} |-> NoPLm]
+    [s \in {"u", "u/", "/u", "./u/"} |-> "u"] @@
+    [s \in {"u/v", "u/v/", "/u/v", "./u/v/"} |-> "u/v"] @@
+    [s \in {"u/w", "u/w/", "/u/w"} |-> "u/w"] @@
+    [s \in {"u/v/x", "/u/v/x", "./u/v/x", "../u/v/x"} |-> "u/v/x"] @@
+    [s \in {"u/v/y", "/u/v/y", "./u/v/y"} |-> "u/v/y"] @@
+    [s \in {"u/w/z", "/u/w/z", "./u/w/z"} |-> "u/w/z"] @@
+    [s \in {PLm, "./.prefetch.landmark", "/.prefetch.landmark", "../.prefetch.landmark"} |-> PLm] @@
+    [s \in {NoPLm, "./.no.prefetch.landmark", "/.no.prefetch.landmark"} |-> NoPLm]
 
 \* D1: path.Split(strings.TrimSuffix(name, "/")) then cleaned, on cleaned names
 Parent ==
-    [n \in {Root, "a", "d", "l", "l2", "x", "e", PLm, NoPLm} |-> Root] @@
+    [n \in {Root, "a", "d", "l", "l2", "x", "e", "u", PLm, NoPLm} |-> Root] @@
+    [n \in {"u/v", "u/w"} |-> "u"] @@
+    [n \in {"u/v/x", "u/v/y"} |-> "u/v"] @@
+    [n \in {"u/w/z"} |-> "u/w"] @@
     [n \in {"a/b", "a/c", "a/x"} |-> "a"] @@
     [n \in {"e/f"} |-> "e"]
 
@@ -104,7 +118,16 @@ U == <<
     Ent(PLm,    "reg",  "",    1),      \*  9 landmark already in the input
     Ent("./.no.prefetch.landmark", "reg", "", 1),  \* 10 the other one, spelled with ./
     Ent("e/f",  "reg",  "",    2),      \* 11 file in a directory that has no entry (D4)
-    Ent("a/b",  "reg",  "",    4)       \* 12 same spelling as 3, other content
+    Ent("a/b",  "reg",  "",    4),      \* 12 same spelling as 3, other content
+    Ent("./.prefetch.landmark", "reg", "", 1),     \* 13 input landmark as `tar -C rootfs -c .` of an optimized rootfs spells it
+    Ent("/.prefetch.landmark",  "reg", "", 1),     \* 14 absolute spelling
+    Ent("/.no.prefetch.landmark", "reg", "", 1),   \* 15
+    Ent("./a/", "dir",  "",    0),      \* 16 the directory a recorded a second time (other spelling)
+    Ent("u/",   "dir",  "",    0),      \* 17 two directory levels:
+    Ent("u/v/", "dir",  "",    0),      \* 18
+    Ent("u/v/x","reg",  "",    2),      \* 19
+    Ent("u/v/y","link", "u/v/x", 0),    \* 20 hard link to a file in the same sub-directory
+    Ent("u/w/z","link", "/u/v/x", 0)    \* 21 hard link from another sub-directory (u/w has no entry of its own)
 >>
 
 VARIABLES
@@ -113,7 +136,7 @@ VARIABLES
     prio,     \* prioritized list: sequence of spellings
     allow,    \* WithAllowPrioritizeNotFound given
     eff,      \* auxiliary: EffOf(tar), the effective input by its declarative definition (set when the tar is complete)
-    res,      \* [err, out, missed]: result of sortEntries
+    res,      \* [err, why, out, missed]: result of sortEntries; why = "" | "notfound" | "loop"
     opt,      \* layout options [chunk, minOn, workers]
     lay       \* [lm, streams, toc]: where the data went
 
@@ -122,7 +145,7 @@ vars == <<phase, tar, prio, allow, eff, res, opt, lay>>
 N(e) == Clean[e.name]
 IsLm(e) == N(e) \in Landmarks
 Range(s) == {s[i] : i \in 1..Len(s)}
-NoRes == [err |-> FALSE, out |-> <<>>, missed |-> <<>>]
+NoRes == [err |-> FALSE, why |-> "", out |-> <<>>, missed |-> <<>>]
 NoOpt == [chunk |-> 0, minOn |-> FALSE, workers |-> 0]
 NoLay == [lm |-> [off |-> 0, inner |-> 0], streams |-> <<>>, toc |-> <<>>]
 
@@ -147,6 +170,8 @@ RECURSIVE NearestPresent(_, _)
 NearestPresent(n, in) ==   \* D4, repaired code: first ancestor that has an entry (or the root)
     LET p == Parent[n] IN IF p = Root \/ InHas(in, p) THEN p ELSE NearestPresent(p, in)
 
+\* st = [out, picked, err, why, visiting]; visiting = the names moveRecVisiting (the hard-link-loop detector added for C04)
+\* has entered and not left. The universe is acyclic (D2), so "loop" can only come out with VisitingIsPath = FALSE.
 RECURSIVE MoveRec(_, _, _)
 MoveRec(spelling, in, st) ==
     LET name == Clean[spelling] IN
@@ -155,18 +180,22 @@ MoveRec(spelling, in, st) ==
         THEN [st EXCEPT !.out = Append(@, InGet(in, Root)), !.picked = @ \cup {Root}]
         ELSE st
     ELSE IF ~InHas(in, name) /\ ~InHas(st.out, name) /\ name \notin st.picked
-    THEN [st EXCEPT !.err = TRUE]
+    THEN [st EXCEPT !.err = TRUE, !.why = "notfound"]
+    ELSE IF name \in st.visiting
+    THEN [st EXCEPT !.err = TRUE, !.why = "loop"]
     ELSE
-        LET par == IF ImplicitParents THEN NearestPresent(name, in) ELSE Parent[name]
-            s1  == IF ParentsFirst THEN MoveRec(par, in, st) ELSE st
-        IN  IF s1.err THEN s1 ELSE
+        LET Leave(s) == IF VisitingIsPath THEN [s EXCEPT !.visiting = @ \ {name}] ELSE s
+            st0 == [st EXCEPT !.visiting = @ \cup {name}]
+            par == IF ImplicitParents THEN NearestPresent(name, in) ELSE Parent[name]
+            s1  == IF ParentsFirst THEN MoveRec(par, in, st0) ELSE st0
+        IN  IF s1.err THEN Leave(s1) ELSE
         LET s2 == IF TargetFirst /\ InHas(in, name) /\ InGet(in, name).type = "link"
                   THEN MoveRec(InGet(in, name).link, in, s1) ELSE s1
-        IN  IF s2.err THEN s2 ELSE
-            IF PickedGuard /\ name \in s2.picked THEN s2
+        IN  IF s2.err THEN Leave(s2) ELSE
+            IF PickedGuard /\ name \in s2.picked THEN Leave(s2)
             ELSE IF InHas(in, name)
-                 THEN [s2 EXCEPT !.out = Append(@, InGet(in, name)), !.picked = @ \cup {name}]
-                 ELSE s2
+                 THEN Leave([s2 EXCEPT !.out = Append(@, InGet(in, name)), !.picked = @ \cup {name}])
+                 ELSE Leave(s2)
 
 LmEntry(nonEmptyList) ==
     Ent(IF (IF LandmarkByList THEN nonEmptyList ELSE TRUE) THEN PLm ELSE NoPLm, "reg", "", 1)
@@ -174,20 +203,22 @@ LmEntry(nonEmptyList) ==
 (* sortEntries *)
 RECURSIVE SortLoop(_, _, _, _, _)
 SortLoop(ps, in, st, missed, alw) ==
-    IF ps = <<>> THEN [err |-> FALSE, st |-> st, missed |-> missed]
-    ELSE LET r == MoveRec(Head(ps), in, st) IN
+    IF ps = <<>> THEN [err |-> FALSE, why |-> "", st |-> st, missed |-> missed]
+    ELSE LET r == MoveRec(Head(ps), in, [st EXCEPT !.visiting = {}]) IN     \* moveRec: a fresh `visiting` per listed path
          IF r.err
-         THEN IF ~ReportMissing THEN SortLoop(Tail(ps), in, [r EXCEPT !.err = FALSE], missed, alw)
-              ELSE IF alw THEN SortLoop(Tail(ps), in, [r EXCEPT !.err = FALSE], Append(missed, Head(ps)), alw)
-              ELSE [err |-> TRUE, st |-> r, missed |-> missed]
+         THEN IF r.why = "notfound" /\ ~ReportMissing
+              THEN SortLoop(Tail(ps), in, [r EXCEPT !.err = FALSE, !.why = ""], missed, alw)
+              ELSE IF r.why = "notfound" /\ alw       \* errors.Is(err, errNotFound) && missedPrioritized != nil
+              THEN SortLoop(Tail(ps), in, [r EXCEPT !.err = FALSE, !.why = ""], Append(missed, Head(ps)), alw)
+              ELSE [err |-> TRUE, why |-> r.why, st |-> r, missed |-> missed]
          ELSE SortLoop(Tail(ps), in, r, missed, alw)
 
 SortEntries(t, ps, alw) ==
     LET in == Import(t)
-        st0 == [out |-> IF LandmarkAfterMoves THEN <<>> ELSE <<LmEntry(ps # <<>>)>>, picked |-> {}, err |-> FALSE]
+        st0 == [out |-> IF LandmarkAfterMoves THEN <<>> ELSE <<LmEntry(ps # <<>>)>>, picked |-> {}, err |-> FALSE, why |-> "", visiting |-> {}]
         r  == SortLoop(ps, in, st0, <<>>, alw)
-    IN  IF r.err THEN [err |-> TRUE, out |-> <<>>, missed |-> <<>>]
-        ELSE [err |-> FALSE,
+    IN  IF r.err THEN [err |-> TRUE, why |-> r.why, out |-> <<>>, missed |-> <<>>]
+        ELSE [err |-> FALSE, why |-> "",
               out |-> (IF LandmarkAfterMoves THEN Append(r.st.out, LmEntry(ps # <<>>)) ELSE r.st.out)
                       \o SelectSeq(in, LAMBDA e : ~(SkipPickedInRest /\ N(e) \in r.st.picked)),
               missed |-> r.missed]
